@@ -230,6 +230,38 @@ def main(tier_: str) -> int:
             from checks.segrewrite import drm_vectors
             from harness.walker import Parsed
             da.clock.set(datetime.datetime(2024, 3, 5, 12, 0, 0, tzinfo=datetime.timezone.utc))
+            # ---- the licence URL stored with the stream (format fields, escapes of its own, '+') is the one every PlayReady
+            # Object of its manifests names (mspr:pro, and the PRO inside cenc:pssh)
+            stored_la = 'https://lic.example.test/pr/rights.asmx?kid={default_kid}&token=a%2Bb%3D%3D&next=https%3A%2F%2Fcdn.example.test%2Fdone+ok'
+            with da.app.app_context():
+                st_ = models.Stream.get(directory='bbb')
+                old_la = st_.playready_la_url
+                st_.playready_la_url = stored_la
+                models.db.session.commit()
+            for q_ in ('drm=playready', 'drm=playready-pro', 'drm=all&playready__version=4.0'):
+                r = c.get(f'/dash/vod/bbb/hand_made.mpd?{q_}')
+                got_las: list[str] = []
+                exp_la = ''
+                if r.status_code == 200:
+                    proj = M.project(r.data, 'http://localhost/x')
+                    for adp in proj['periods'][0]['adaptation_sets']:
+                        kid_hex = ''
+                        for cp in adp['content_protection'] or []:
+                            if (cp['attrs'].get('schemeIdUri') or '').lower() == 'urn:mpeg:dash:mp4protection:2011':
+                                kid_hex = (cp['attrs'].get('default_KID') or '').replace('-', '').lower()
+                        for cp in adp['content_protection'] or []:
+                            if 'pro' in cp['children']:
+                                try:
+                                    got_las.append(read_pro(base64.b64decode(cp['children']['pro']))['la_url'] or '')
+                                except Exception:      # noqa: BLE001
+                                    got_las.append('?')
+                                exp_la = stored_la.format(default_kid=kid_hex, cfgs='', kids='')
+                lines.append({'ev': 'stream_la', 'url': f'/dash/vod/bbb/hand_made.mpd?{q_}', 'status': r.status_code, 'expected': exp_la,
+                              'got': sorted(set(got_las))})
+            with da.app.app_context():
+                st_ = models.Stream.get(directory='bbb')
+                st_.playready_la_url = old_la
+                models.db.session.commit()
             for qv in drm_vectors(tier_, rng):
                 sel = parse_sel(qv)
                 if not sel:
@@ -299,7 +331,8 @@ def main(tier_: str) -> int:
         seen: set[str] = set()
         for v in vs:
             lo = v['lineobj']
-            case = {k: lo.get(k) for k in ('ev', 'url', 'rep', 'sel', 'obs', 'hv', 'version', 'la_url', 'got_la_url', 'requested', 'status', 'kid', 'kid_eq', 'pssh_eq')}
+            case = {k: lo.get(k) for k in ('ev', 'url', 'rep', 'sel', 'obs', 'hv', 'version', 'la_url', 'got_la_url', 'requested', 'status', 'kid', 'kid_eq', 'pssh_eq',
+                                           'expected', 'got')}
             case['detail'] = v['detail']
             key = f"{v['clause']}|{lo['ev']}|{lo.get('hv')}|{str(lo.get('sel'))[:60]}|{lo.get('la_url')}"
             if key in seen:
